@@ -212,6 +212,23 @@ def validate_round(run, trace, cst, dis, label):
         label, len(order) - len(good), len(order), len(groups), len(rej)))
 
 
+def store_race(run):
+    """Racing Store calls on the in-memory metastore (the only backend whose atomicity is the SDK's own code): schedules of the
+    real code under the cooperative scheduler, judged by MetastoreRaceTrace.tla."""
+    run.vdrv(sched=True)
+    binary = run.gobin("concdrv")
+    run.spec_files("MetastoreRaceTrace.tla")
+    trace = os.path.join(run.work, "trace.ndjson")
+    res = run.drv(["-memstore", str(300 if run.quick else 3000), "-seed", str(run.seed), "-trace", trace], timeout=900, binary=binary)
+    run.absorb(res)
+    rej = validate_traces(run, "MetastoreRaceTrace.tla", {}, [], trace, "store-race", max_reject=3)
+    for x in rej:
+        run.findings.append({"kind": "memory store race: %s" % ("two racing Store calls both succeeded / the stored record was replaced" if x["event"].get("e") == "loaded" else x["event"].get("e")),
+                             "detail": "%s: %s; run %s" % (x["why"], json.dumps(x["event"]), json.dumps([e for e in x["trace"] if e.get("e") in ("store", "loaded")])[:600]),
+                             "case": {"trace": x["trace"]}})
+    run.notes.append("store race: %d schedules of 3 racing Store calls on MemoryMetastore" % res["evaluations"])
+
+
 def check(run: Run):
     q = run.quick
     run.spec_files("Metastore.tla", "MetastoreGen.tla", "MetastoreTrace.tla")
@@ -247,6 +264,7 @@ def check(run: Run):
     run.notes.append("fake statistics: %s" % json.dumps(stats))
     if stats.get("stale_distinguishing_cases", 0) == 0 or stats.get("duplicate_store_cases", 0) == 0:
         raise Infra("vacuous generation: no case distinguishes a lagging read / no duplicate Store (%s)" % json.dumps(stats))
+    store_race(run)
     return run.finish(
         "model_checking",
         "TLC explores Metastore.tla (2 overlapping ids x 3 creation stamps x record variants {keys with 0x00/0xFF and all 256 byte values, revoked T/F, with/without parent meta}); "
